@@ -1,8 +1,10 @@
 #!/bin/bash
-# thorough_all.sh: run the thorough tier of every property in turn (evidence goes to evidence_thorough/).
-cd /verif
+# thorough_all.sh [ids...]: run the thorough tier of every property in turn from the directory this script is in
+# (evidence goes to /verif/evidence_thorough/, the summary to /verif/.work/thorough_all.log).
+cd "$(dirname "$0")"; mkdir -p .work /verif/.work /verif/evidence_thorough
 for id in ${@:-C01 C02 C03 C04 C05 C06 C07 C08 C09 C10 C11 C12 C13 C14 C15 C16 C17 C18 C19 C20}; do
   t0=$(date +%s)
   VERIF_EVIDENCE_DIR=/verif/evidence_thorough ./check $id thorough > .work/thorough.$id.log 2>&1; rc=$?
-  echo "$id rc=$rc $(( $(date +%s) - t0 ))s $(tail -1 .work/thorough.$id.log | cut -c1-300)"
+  cp .work/thorough.$id.log /verif/.work/thorough.$id.log 2>/dev/null
+  echo "$id rc=$rc $(( $(date +%s) - t0 ))s $(tail -1 .work/thorough.$id.log | cut -c1-300)" | tee -a /verif/.work/thorough_all.log
 done
